@@ -80,9 +80,17 @@ def make_value(vc, rnd, serde):
     if vc == "big":
         return bytes((i * 131 + 17) % 256 for i in range(1024 * 1024 - 1000))
     if vc == "str":
-        return rnd.choice(["hello", "héllo wörld", "", "€uro\r\nEND\r\n", "漢字" * 50])
+        v = rnd.choice(["hello", "héllo wörld", "", "€uro\r\nEND\r\n", "漢字" * 50])
+        if serde not in ("none", "custom") and rnd.random() < 0.3:
+            from drivers.c15_types import StrSub
+            return StrSub(v)              # "any value comes back equal and of the same type": subclasses of the native types too
+        return v
     if vc == "int":
-        return rnd.choice([0, 7, -5, 12345678901234567890, -(10 ** 30)])
+        v = rnd.choice([0, 7, -5, 12345678901234567890, -(10 ** 30), 10 ** 450])
+        if serde not in ("none", "custom") and rnd.random() < 0.2:
+            from drivers.c15_types import IntSub
+            return IntSub(v)
+        return v
     if vc == "obj":
         return rand_obj(rnd)
     raise ValueError(vc)
@@ -174,6 +182,11 @@ def run_point(g, n, rnd, force_seg=None):
         evs.append({"e": "store", "key": keyrec(k), "vid": vid, "ok": ok is True, "wirekey": last_wire_key()})
 
     vals = [make_value(g["v"], rnd, g["serde"]) for _ in keys]
+    if g["sop"] == "set_many" and g["serde"] not in ("none", "custom") and len(keys) > 1 and n % 2 == 0:
+        # a batch of mixed types: every item is stored with its own serializer flags
+        vals[0] = rnd.choice([7, "text", 10 ** 30, ("tu", "ple")])
+        if len(keys) > 2:
+            vals[-1] = rnd.choice([b"raw bytes", 3.5, "more text"])
     if g["sop"] == "set_many":
         begin()
         n0 = len(srv.log)
